@@ -25,7 +25,9 @@ func (e *Eng) execFunc(fn *ssa.Function, args []*Val, bindings []*Val, st *State
 		return nil, st, guard
 	}
 	fr := &Frame{fn: fn, vals: map[ssa.Value]*Val{}, guard: map[*ssa.BasicBlock]string{}, in: map[*ssa.BasicBlock][]edgeIn{},
-		depth: depth, prefix: prefix, fspec: fspec, loopOrd: map[*ssa.BasicBlock]int{}, descN: map[string]int{}, entryGuard: guard}
+		depth: depth, prefix: prefix, fspec: fspec, loopOrd: map[*ssa.BasicBlock]int{}, descN: map[string]int{}, entryGuard: guard,
+		inheritedNonNil: e.pendingNonNil}
+	e.pendingNonNil = nil
 	for i, p := range fn.Params {
 		if i < len(args) {
 			fr.vals[p] = args[i]
@@ -620,7 +622,7 @@ func (e *Eng) execInstr(fr *Frame, b *ssa.BasicBlock, ins ssa.Instruction, st *S
 	case *ssa.FieldAddr:
 		base := e.valOf(fr, st, x.X)
 		stt := derefType(x.X.Type())
-		e.oblige("nil", descr(x.X, 0), e.safety(fr), x.Pos(), g, not(eq(base.T, "0")))
+		e.nilCheck(fr, x.Block(), base.T, descr(x.X, 0), x.Pos(), g)
 		fr.vals[x] = e.fieldAddr(base, stt, x.Field, x.Type())
 	case *ssa.Field:
 		sv := e.valOf(fr, st, x.X)
@@ -637,9 +639,11 @@ func (e *Eng) execInstr(fr *Frame, b *ssa.BasicBlock, ins ssa.Instruction, st *S
 			l = &Loc{Kind: LElem, Base: sx("s_arr", base.T), IdxT: idxAt(sx("s_off", base.T), idx.T), ET: u.Elem()}
 		case *types.Pointer:
 			arr := u.Elem().Underlying().(*types.Array)
-			e.oblige("nil", descr(x.X, 0), e.safety(fr), x.Pos(), g, not(eq(base.T, "0")))
-			e.oblige("index", descr(x.X, 0)+"["+descr(x.Index, 0)+"]", e.safety(fr), x.Pos(), g,
-				and(sx("<=", "0", idx.T), sx("<", idx.T, fmt.Sprint(arr.Len()))))
+			e.nilCheck(fr, x.Block(), base.T, descr(x.X, 0), x.Pos(), g)
+			if !(isNumLit(idx.T) && lessNum(idx.T, arr.Len())) {
+				e.oblige("index", descr(x.X, 0)+"["+descr(x.Index, 0)+"]", e.safety(fr), x.Pos(), g,
+					and(sx("<=", "0", idx.T), sx("<", idx.T, fmt.Sprint(arr.Len()))))
+			}
 			bl := e.locOfPtr(base)
 			l = &Loc{Kind: LElem, Base: bl.Base, IdxT: idx.T, ET: arr.Elem()}
 		}
@@ -685,7 +689,7 @@ func (e *Eng) execInstr(fr *Frame, b *ssa.BasicBlock, ins ssa.Instruction, st *S
 		val := e.valOf(fr, st, x.Val)
 		l := e.locOfPtr(addr)
 		if addr.Loc == nil {
-			e.oblige("nil", descr(x.Addr, 0), e.safety(fr), x.Pos(), g, not(eq(addr.T, "0")))
+			e.nilCheck(fr, x.Block(), addr.T, descr(x.Addr, 0), x.Pos(), g)
 		}
 		e.checkProtectedWrite(fr, st, l, x.Pos(), g)
 		e.store(st, l, val.T, ins.String())
@@ -1014,7 +1018,7 @@ func (e *Eng) execUnOp(fr *Frame, x *ssa.UnOp, st *State, g string, def func(ssa
 	case token.MUL: // load
 		l := e.locOfPtr(src)
 		if src.Loc == nil {
-			e.oblige("nil", descr(x.X, 0), e.safety(fr), x.Pos(), g, not(eq(src.T, "0")))
+			e.nilCheck(fr, x.Block(), src.T, descr(x.X, 0), x.Pos(), g)
 		}
 		t := e.load(st, l)
 		v := def(x, e.sortOf(x.Type()), t)
@@ -1363,7 +1367,9 @@ func (e *Eng) execSlice(fr *Frame, x *ssa.Slice, st *State, g string, def func(s
 		if x.Max != nil {
 			mx = e.valOf(fr, st, x.Max).T
 		}
-		e.oblige("slice", key, e.safety(fr), x.Pos(), g, and(sx("<=", "0", lo), sx("<=", lo, hi), sx("<=", hi, mx), sx("<=", mx, n)))
+		if !(x.Low == nil && x.High == nil && x.Max == nil) {
+			e.oblige("slice", key, e.safety(fr), x.Pos(), g, and(sx("<=", "0", lo), sx("<=", lo, hi), sx("<=", hi, mx), sx("<=", mx, n)))
+		}
 		bl := e.locOfPtr(base)
 		v := def(x, "Slice", fmt.Sprintf("(mk_slice %s %s (- %s %s) (- %s %s))", bl.Base, lo, hi, lo, mx, lo))
 		if x.Low == nil && x.High == nil {
@@ -1372,4 +1378,49 @@ func (e *Eng) execSlice(fr *Frame, x *ssa.Slice, st *State, g string, def func(s
 	default:
 		e.errf("slice of %v", x.X.Type())
 	}
+}
+
+func lessNum(lit string, n int64) bool {
+	var v int64
+	if _, err := fmt.Sscanf(lit, "%d", &v); err != nil {
+		return false
+	}
+	return v >= 0 && v < n
+}
+
+// nilCheck: obligation "pointer is not nil", emitted once per pointer term on
+// every dominated path (an earlier discharged check is an assumption later on).
+func (e *Eng) nilCheck(fr *Frame, b *ssa.BasicBlock, term, key string, pos token.Pos, g string) {
+	if e.allocRefs[term] || strings.HasPrefix(term, "glob_") {
+		return
+	}
+	if fr.inheritedNonNil[term] {
+		return
+	}
+	for _, cb := range fr.nonnil[term] {
+		if cb == b || cb.Dominates(b) {
+			return
+		}
+	}
+	if fr.nonnil == nil {
+		fr.nonnil = map[string][]*ssa.BasicBlock{}
+	}
+	fr.nonnil[term] = append(fr.nonnil[term], b)
+	e.oblige("nil", key, e.safety(fr), pos, g, not(eq(term, "0")))
+}
+
+// knownNonNilAt: pointer terms already checked on every path reaching block b (passed to inlined callees).
+func (fr *Frame) knownNonNilAt(b *ssa.BasicBlock) map[string]bool {
+	out := map[string]bool{}
+	for t := range fr.inheritedNonNil {
+		out[t] = true
+	}
+	for t, bs := range fr.nonnil {
+		for _, cb := range bs {
+			if cb == b || cb.Dominates(b) {
+				out[t] = true
+			}
+		}
+	}
+	return out
 }
